@@ -112,3 +112,132 @@ pub fn rule_yaml(r: &Value) -> String {
 pub fn rules_yaml(rs: &[Value]) -> String {
     rs.iter().map(|r| format!("---\n{}", rule_yaml(r))).collect::<Vec<_>>().join("")
 }
+
+/// The same document in another YAML dress: block sequences and mappings, comments, single-quoted scalars where
+/// the text allows, optional leading comment / CRLF line ends / explicit document end. serde_yaml must read the same tree.
+pub fn rule_yaml_block(r: &Value, style: u64) -> String {
+    fn sq(s: &str) -> String {
+        // single quotes when nothing needs escaping, double quotes otherwise
+        if !s.is_empty() && !s.contains('\'') && !s.contains('\n') && !s.contains('\r') && !s.contains('\t') && !s.contains('\\') && s.chars().all(|c| (c as u32) >= 0x20 && c != '\u{7f}' && c != '\u{85}' && c != '\u{2028}' && c != '\u{2029}' && c != '\u{feff}') {
+            format!("'{s}'")
+        } else {
+            yq(s)
+        }
+    }
+    fn block_list(o: &mut String, indent: &str, v: &Value) {
+        match v.as_array() {
+            Some(a) if !a.is_empty() => {
+                o.push('\n');
+                for x in a {
+                    o.push_str(&format!("{indent}- {}\n", sq(x.as_str().unwrap_or(""))));
+                }
+            }
+            _ => o.push_str(" []\n"),
+        }
+    }
+    let mut o = String::new();
+    if style & 1 == 1 {
+        o.push_str("# a rule\n");
+    }
+    o.push_str(&format!("name: {}\n", sq(r["name"].as_str().unwrap_or(""))));
+    if let Some(t) = r.get("type").and_then(|t| t.as_str()) {
+        o.push_str(&format!("type: {t}   # the rule type\n"));
+    }
+    if let Some(m) = r.get("meta").and_then(|m| m.as_object()) {
+        let mut any = false;
+        let mut body = String::new();
+        for k in ["tags", "attack", "authors", "comments"] {
+            if let Some(v) = m.get(k) {
+                if !v.is_null() {
+                    any = true;
+                    body.push_str(&format!("  {k}:"));
+                    block_list(&mut body, "    ", v);
+                }
+            }
+        }
+        if any {
+            o.push_str("meta:\n");
+            o.push_str(&body);
+        } else {
+            o.push_str("meta: {}\n");
+        }
+    }
+    if let Some(p) = r.get("params").and_then(|m| m.as_object()) {
+        match p.get("disable").and_then(|d| d.as_bool()) {
+            Some(b) => o.push_str(&format!("params:\n  disable: {b}\n")),
+            None => o.push_str("params: {}\n"),
+        }
+    }
+    if let Some(mo) = r.get("match_on") {
+        match mo {
+            Value::Array(a) if !a.is_empty() => {
+                o.push_str("match-on:\n  events:\n");
+                for e in a {
+                    let ids: Vec<String> = e[1].as_array().map(|x| x.iter().map(|i| i.to_string()).collect()).unwrap_or_default();
+                    if ids.is_empty() {
+                        o.push_str(&format!("    {}: []\n", yq(e[0].as_str().unwrap_or(""))));
+                    } else {
+                        o.push_str(&format!("    {}:\n", yq(e[0].as_str().unwrap_or(""))));
+                        for i in ids {
+                            o.push_str(&format!("      - {i}\n"));
+                        }
+                    }
+                }
+            }
+            _ => {
+                if let Some(s) = match_on_yaml(mo) {
+                    o.push_str(&s);
+                    o.push('\n');
+                }
+            }
+        }
+    }
+    if let Some(ms) = r.get("matches").and_then(|m| m.as_array()) {
+        if ms.is_empty() {
+            o.push_str("matches: {}\n");
+        } else {
+            o.push_str("matches:\n");
+            for e in ms {
+                o.push_str(&format!("  {}: {}\n", yq(e[0].as_str().unwrap_or("")), sq(e[1].as_str().unwrap_or(""))));
+            }
+        }
+    }
+    if let Some(c) = r.get("condition").and_then(|c| c.as_str()) {
+        o.push_str(&format!("condition: {}\n", sq(c)));
+    }
+    if let Some(s) = r.get("severity") {
+        if !s.is_null() {
+            o.push_str(&format!("severity: {s}\n"));
+        }
+    }
+    if let Some(a) = r.get("actions") {
+        if !a.is_null() {
+            o.push_str("actions:");
+            block_list(&mut o, "  ", a);
+        }
+    }
+    if style & 2 == 2 {
+        o = o.replace('\n', "\r\n");
+    }
+    o
+}
+
+/// several documents; `style` picks the dress (0 = the flow-style writer)
+pub fn rules_yaml_styled(rs: &[Value], style: u64) -> String {
+    if style == 0 {
+        return rules_yaml(rs);
+    }
+    let mut o = String::new();
+    if style & 4 == 4 {
+        // (a byte order mark before `---` is not understood by serde_yaml's parser: left out)
+        o.push_str("# rule file\n\n");
+    }
+    for r in rs {
+        o.push_str("---\n");
+        o.push_str(&rule_yaml_block(r, style));
+        if style & 8 == 8 {
+            o.push_str("...\n");
+        }
+    }
+    o
+}
